@@ -122,12 +122,13 @@ PROPS = {
     "C25": dict(
         group="grpcsim", level="exploration",
         rule="one evaluation = one generated history of 0-250 produced results (stats-only events incl. single overlooked counters, events with 1-6 files, files of 300 KiB/600 KiB/>1 MiB) pushed through the real Server.StreamSearch -> samplingSender -> gRPCChunkSender -> chunk.SendAll into a simulated stream; a quarter of the runs make Send fail from a fault-stream-chosen message on. distinct_nontrivial = distinct event-log hashes (producer/transport steps, sizes, fault point) among runs with >= 2 produced files and >= 2 delivered messages.",
-        harnesses=[dict(name="C25", quick=16000, thorough=400000, quick_deadline_s=170, thorough_deadline_s=1500)],
+        harnesses=[dict(name="C25", quick=16000, thorough=400000, quick_deadline_s=170, thorough_deadline_s=1500),
+                   dict(name="C25/flush", group="search", quick=20000, thorough=600000, quick_deadline_s=100, thorough_deadline_s=1200)],
         expect_faults=["send-error"],
-        components={"real": ["cmd/zoekt-webserver/grpc/server Server.StreamSearch, samplingSender, gRPCChunkSender", "grpc/chunk Chunker", "api_proto conversions", "google.golang.org/protobuf"], "stub": ["the result source is a stub zoekt.Streamer emitting generated event sequences (the real sharded searcher is exercised by C18/C21/C22)", "gRPC transport: direct handler call with a recording stream that can fail"]},
+        components={"real": ["cmd/zoekt-webserver/grpc/server Server.StreamSearch, samplingSender, gRPCChunkSender", "search.newFlushCollectSender/collectSender incl. its timer goroutine (C25/flush, under the scheduler)", "grpc/chunk Chunker", "api_proto conversions", "google.golang.org/protobuf"], "stub": ["the result source is a stub zoekt.Streamer emitting generated event sequences (the real sharded searcher is exercised by C18/C21/C22)", "gRPC transport: direct handler call with a recording stream that can fail"]},
         assumptions=["the produced sequence is single-threaded (zoekt.Sender is not required to be thread-safe below flushCollectSender)", "statistics counters = the fields Stats.Add sums (Duration and FlushReason are not additive)"],
         technique="deterministic simulation: generated result histories and injected transport errors through the real gRPC streaming pipeline, conservation checks on the recorded message history",
-        level_text="Generated result histories through the real streaming pipeline into a recording transport: delivered files are exactly the produced files in order, once (a prefix when the transport fails, never duplicated); a message with more than one file stays below 1 MiB of encoded file matches and 4 MiB in total; on successful completion every statistics counter summed over delivered messages equals the sum over produced results (never more under faults).",
+        level_text="Generated result histories through the real streaming pipeline into a recording transport: delivered files are exactly the produced files in order, once (a prefix when the transport fails, never duplicated); a message with more than one file stays below 1 MiB of encoded file matches and 4 MiB in total; on successful completion every statistics counter summed over delivered messages equals the sum over produced results (never more under faults). Second sub-harness (C25/flush, package search): the real newFlushCollectSender under the seeded scheduler with the FlushWallTime timer goroutine racing the producer on the fake clock and a downstream sender that takes simulated time: every produced file and statistics counter reaches the downstream sender exactly once, all before the final flush returns, and the (not thread-safe) downstream sender is never entered by two goroutines at once.",
         level_note="Samples histories and fault points; no concurrency inside this pipeline, so the schedule dimension is trivial here.",
     ),
     "C11": dict(
